@@ -240,6 +240,19 @@ theorem C15_child_selectBy_only_own_kind (T : Tree) (h : T.WF) (db : DB) (inv : 
       exact ⟨m, by rw [← hres, hget], hleaf, hcm⟩
     · simp [hc] at hres
 
+/-- `Sub.by<Col>(v)` on an alternate-id column declared by an ancestor finds an object only if it
+    has a row in `Sub`'s own table (a value owned by a sibling kind or a bare ancestor instance is
+    NotFound), and returns it as an instance of `Sub` or a subclass -/
+theorem C15_by_alternate_id_only_own_kind (T : Tree) (h : T.WF) (db : DB) (inv : NoOrphan T db)
+    (e a k : Nat) (v : Val) (i : Nat) :
+    (byAltRow T db e a k v i = none ↔ ¬ (db.has e i = true ∧ look db i a k = v)) ∧
+    (∀ res, byAltRow T db e a k v i = some res →
+        ∃ m, res = .ok m ∧ LeafRow db m i ∧ e ∈ T.anc m) := by
+  have := C15_child_selectBy_only_own_kind T h db inv e [(a, k, v)] i
+  refine ⟨?_, this.2⟩
+  rw [byAltRow, this.1]
+  simp [kvsHold]
+
 /-! ### destroying an instance removes its rows at every level -/
 
 theorem C15_destroy_removes_all_levels (T : Tree) (h : T.WF) (db : DB) (inv : NoOrphan T db)
